@@ -3,12 +3,25 @@
   naturals.  Each property contributes `Handlers/H<id>.lean` exporting a list; append it here.
 -/
 import Handlers.Basic
+import Handlers.HC04
+import Handlers.HC06
 import Handlers.HC07
+import Handlers.HC08
+import Handlers.HC13
+import Handlers.HC14
+import Handlers.HC15
+import Handlers.HC16
+import Handlers.HC17
+import Handlers.HC19
+import Handlers.HC02
+import Handlers.HC11
+import Handlers.HC18
+import Handlers.HC09
 
 namespace Handlers
 
 def all : List (String × (List Nat → Option String)) :=
-  []
-  ++ hC07
+  hC04 ++ hC06 ++ hC07 ++ hC08 ++ hC13 ++ hC14 ++ hC15 ++ hC16 ++ hC17 ++ hC19 ++ hC02 ++ hC11 ++ hC18
+    ++ hC09
 
 end Handlers
